@@ -46,6 +46,16 @@ def compare(prog, pred, events):
         if a != b:
             kind = prog["nodes"][i - 1]["kind"] if i <= len(prog["nodes"]) else "?"
             return "node %d (%s): specified stream %s, observed %s" % (i, kind, a, b)
+    # captured errors: exactly one error tick per exception, in its cycle, carrying its message
+    if pe or errs:
+        capt = {}
+        for eid, ths in prog.get("capt", []):
+            for i in ths:
+                capt[i] = eid
+        want = sorted((t, capt.get(i, -1), "neg %d" % v) for t, i, v in pe if i in capt)
+        got = sorted(errs)
+        if want != got:
+            return "error ticks: specified %s, observed %s" % (want, got)
     missing = [t for t in pc if t not in cycles]
     if missing:
         return "no engine cycle at requested time(s) %s (cycles %s)" % (missing, cycles)
